@@ -787,6 +787,10 @@ func (p *Parser) parseMap() (ast.Expr, error) {
 			if err != nil {
 				return nil, err
 			}
+			// a field name occurs at most once: a second value would silently replace the first
+			if _, dup := expr.Fields[ele.Val]; dup {
+				return nil, fmt.Errorf("ln%v: duplicate field %v in map", ele.Line, ele.Val)
+			}
 			expr.Fields[ele.Val] = e
 		} else {
 			// expr
